@@ -24,8 +24,15 @@ CONSTANTS Variant, Families
 VARIABLES cs, pcs, k, i, q, out
 vars == <<cs, pcs, k, i, q, out>>
 
-CaseSet == UNION {CASE f = "A" -> FamilyA [] f = "B" -> FamilyB [] f = "C" -> FamilyC
-                    [] f = "D" -> FamilyD : f \in Families}
+\* the case set as a predicate (TLC enumerates the components; no big set of records is built)
+InCaseSet(x) ==
+   \/ "A" \in Families /\ \E s \in SidesA, d \in 0..3, sp \in BOOLEAN : x = CaseA(s, d, sp)
+   \/ "B" \in Families /\ \E ns \in SeqsB, ts \in TSesB, p \in DelimPairs, sp \in BOOLEAN, pad \in Pads :
+                               x = CaseB(ns, ts, p, sp, pad)
+   \/ "C" \in Families /\ \E s \in SidesC, ts \in TSesC, lay \in LayoutsC(FALSE) : x = CaseC(s, ts, lay[1], lay[2])
+   \/ "Cfull" \in Families /\ \E s \in SidesC, ts \in TSesC, lay \in LayoutsC(TRUE) : x = CaseC(s, ts, lay[1], lay[2])
+   \/ "E" \in Families /\ \E ns \in SeqsE, ts \in TSesB, p \in PairsE, sp \in BOOLEAN : x = CaseE(ns, ts, p, sp)
+   \/ "D" \in Families /\ \E s \in SidesD, ts \in TSesC, pad \in PadsD : x = CaseD(s, ts, pad)
 
 Pieces(text, spd, rxd) ==
    LET st == SplitOn(text, rxd)
@@ -38,7 +45,7 @@ Pieces(text, spd, rxd) ==
 Text == TextOf(cs, Variant)
 
 NoOut == [re |-> <<>>, ts |-> <<>>, pr |-> <<>>, hasTS |-> FALSE]
-Init == /\ cs \in CaseSet
+Init == /\ InCaseSet(cs)
         /\ pcs = <<>> /\ k = 0 /\ i = 1 /\ q = LexInit /\ out = NoOut
 
 \* split the text of the case on the delimiters (k = 0: not split yet)
